@@ -12,7 +12,10 @@ package main
 //             relative to the buffered events.  Oracles: hub-never-blocked, no-panic, others-see-everything,
 //             close-unregisters, no-loss-before-drop, slow-listener-dropped.
 //
-//   VERIF_C15_PART=a|b runs one part only (part b needs no model driver).
+//   part (c)  c15_join.go: joins racing with dispatches.
+//   part (d)  c15_wire.go: the last hop — real WebSocket clients of the real handlers, frame by frame, against Model.WsWire.
+//
+//   VERIF_C15_PART=a|b|c|d runs one part only (part b needs no model driver).
 
 import (
 	"bytes"
@@ -1439,6 +1442,9 @@ func runC15(c *core.Ctx) {
 		"recorded at least one event, or (part b, real websocket listeners) the websocket listener was due at least one event and was then closed or overrun; distinct by the text of the sequence"
 	logs := &c15LogBuf{}
 	log.Logger = zerolog.New(logs) // before any hub goroutine exists
+	// main() disables logging globally; the hub reports a recovered panic at error level, and the no-panic oracles read it from `logs`
+	zerolog.SetGlobalLevel(zerolog.ErrorLevel)
+	defer zerolog.SetGlobalLevel(zerolog.Disabled)
 	part := os.Getenv("VERIF_C15_PART")
 	if part == "" || part == "a" {
 		c15PartA(c, logs)
@@ -1448,6 +1454,9 @@ func runC15(c *core.Ctx) {
 	}
 	if part == "" || part == "c" {
 		c15PartC(c)
+	}
+	if part == "" || part == "d" {
+		c15PartD(c, logs)
 	}
 	if part != "" {
 		c.Note("VERIF_C15_PART=%s: only that part was run", part)
